@@ -239,7 +239,7 @@ def run(ctx):
                 vsw = None
                 for sb in sorted(cfg.reach(f, [tt], avoid=[NX.bb])):
                     es = enum_switch(f, sb)
-                    if es and not es[0]["p"] and f.local_ty(es[0]["l"]).startswith("std::option::Option<pest::Span"):
+                    if es and (f.place_ty(es[0]) or "").startswith("std::option::Option<pest::Span"):
                         vsw = (sb, es)
                         break
                 if ctx.check(vsw is not None, "C13-R1", "value-match", "a matching key is examined for a value", f.where(bb)):
